@@ -452,6 +452,7 @@ def parseFetchQ (dec : QTab) : Nat → Str → Option (List Event)
       | 42 :: 32 :: r =>
         match decNumber r with
         | some (n, 32 :: 70 :: 69 :: 84 :: 67 :: 72 :: 32 :: r') =>
+          if n = 0 then none else
           match decList (readItemQ dec) r' with
           | some (its, 13 :: 10 :: r'') => some (Event.fetch { seq := n, items := its }, r'')
           | _ => none
